@@ -87,18 +87,27 @@ Theorem C12_gate_before_upstream_tcp : forall t p,
 Proof. exact gate_before_upstream_tcp. Qed.
 Print Assumptions C12_gate_before_upstream_tcp.
 
-(* ---- the peer and every element of the X-Forwarded-For value are checked ---- *)
+(* ---- the peer and every element of every X-Forwarded-For value are checked ---- *)
 Theorem C12_peer_checked : forall parse_ip split_host r remote xff host ip,
   access_denied_http parse_ip split_host r remote xff = false ->
-  split_host remote = Some host -> parse_ip host = Some ip -> deny_by_ip r (Some ip) = false.
+  split_host remote = Some host -> parse_ip (strip_zone host) = Some ip -> deny_by_ip r (Some ip) = false.
 Proof. exact peer_checked. Qed.
 Print Assumptions C12_peer_checked.
 
-Theorem C12_xff_all_checked : forall parse_ip split_host r remote host v rest,
-  access_denied_http parse_ip split_host r remote (v :: rest) = false ->
-  split_host remote = Some host -> v <> [] ->
-  forall x ip, In x (split_byte v 44) -> parse_ip (trim_space x) = Some ip ->
-               deny_by_ip r (Some ip) = false.
+(* a zone-scoped peer "a%z" is checked as the address a (since f5e2970) *)
+Theorem C12_zone_peer_checked : forall parse_ip split_host r remote xff a z ip,
+  access_denied_http parse_ip split_host r remote xff = false ->
+  split_host remote = Some (a ++ 37 :: z) -> ~ In 37 a -> parse_ip a = Some ip ->
+  deny_by_ip r (Some ip) = false.
+Proof. exact zone_peer_checked. Qed.
+Print Assumptions C12_zone_peer_checked.
+
+(* every element of every X-Forwarded-For field value (all header lines, since 273c6ed) *)
+Theorem C12_xff_all_checked : forall parse_ip split_host r remote host xff,
+  access_denied_http parse_ip split_host r remote xff = false ->
+  split_host remote = Some host -> parse_ip [] = None ->
+  forall v x ip, In v xff -> In x (split_byte v 44) -> parse_ip (strip_zone (trim_space x)) = Some ip ->
+                 deny_by_ip r (Some ip) = false.
 Proof. exact xff_all_checked. Qed.
 Print Assumptions C12_xff_all_checked.
 
@@ -106,11 +115,13 @@ Print Assumptions C12_xff_all_checked.
 Theorem C12_http_upstream_only_if_allowed :
   forall parse_ip split_host (creds : Type) tg (schemes : scheme_table creds) remote xff c,
   In EUpstream (serve_http parse_ip split_host creds (Some tg) schemes remote xff c) ->
-  r_allow (t_rules tg) <> [] ->
+  r_allow (t_rules tg) <> [] -> parse_ip [] = None ->
   exists host, split_host remote = Some host /\
-    (forall ip, parse_ip host = Some ip -> exists b, In b (r_allow (t_rules tg)) /\ contains b ip = true) /\
-    (forall v rest x ip, xff = v :: rest -> v <> [] -> In x (split_byte v 44) ->
-       parse_ip (trim_space x) = Some ip -> exists b, In b (r_allow (t_rules tg)) /\ contains b ip = true).
+    (forall ip, parse_ip (strip_zone host) = Some ip ->
+                exists b, In b (r_allow (t_rules tg)) /\ contains b ip = true) /\
+    (forall v x ip, In v xff -> In x (split_byte v 44) ->
+       parse_ip (strip_zone (trim_space x)) = Some ip ->
+       exists b, In b (r_allow (t_rules tg)) /\ contains b ip = true).
 Proof. exact http_upstream_only_if_allowed. Qed.
 Print Assumptions C12_http_upstream_only_if_allowed.
 
@@ -169,41 +180,59 @@ Theorem C12_allow_only_fail_closed_on_domain : forall parse_ip parse_cidr allow_
 Proof. exact allow_only_fail_closed. Qed.
 Print Assumptions C12_allow_only_fail_closed_on_domain.
 
-(* ---- request level: "every address the request carries is admitted": FALSE on the unchanged
-        code.  F-C12-2 (region 2: a string that is an address but that net.ParseIP rejects,
-        i.e. zone-scoped IPv6) and F-C12-3 (region 3: several X-Forwarded-For field values) ---- *)
+(* ---- request level: "every address the request carries is admitted".
+        It was FALSE for zone-scoped addresses (F-C12-2, repaired by f5e2970) and for several
+        X-Forwarded-For field values (F-C12-3, repaired by 273c6ed); the refutations below are
+        about the code before those commits (the [_unrepaired] variants of the model), each
+        followed by the same witness being denied by the code as it is. ---- *)
 Theorem C12_zone_peer_admitted_refuted :
   exists parse_ip split_host addr_of r remote host,
     (forall s a, parse_ip s = Some a -> addr_of s = Some a) /\
     split_host remote = Some host /\
-    access_denied_http parse_ip split_host r remote [] = false /\
+    access_denied_http_zone_unrepaired parse_ip split_host r remote [] = false /\
     ~ http_admitted_spec addr_of r host [].
 Proof. exact zone_peer_admitted_refuted. Qed.
 Print Assumptions C12_zone_peer_admitted_refuted.
 
-Theorem C12_unparsable_peer_admitted : forall parse_ip split_host r remote host,
-  split_host remote = Some host -> parse_ip host = None ->
-  access_denied_http parse_ip split_host r remote [] = false.
-Proof. exact unparsable_peer_admitted. Qed.
-Print Assumptions C12_unparsable_peer_admitted.
+Theorem C12_zone_peer_now_denied :
+  access_denied_http ex_parse_ip_z ex_split_host ex_allow_10 (bs "[fe80::1%eth0]:1234") [] = true /\
+  access_denied_http_zone_unrepaired ex_parse_ip_z ex_split_host ex_allow_10 (bs "[fe80::1%eth0]:1234") [] = false.
+Proof. exact zone_peer_now_denied. Qed.
+Print Assumptions C12_zone_peer_now_denied.
 
 Theorem C12_multi_value_xff_refuted :
   exists parse_ip split_host r remote host xff,
     split_host remote = Some host /\
     (forall s, In s (request_strings host xff) -> parse_ip s <> None) /\
-    access_denied_http parse_ip split_host r remote xff = false /\
+    access_denied_http_first_value_unrepaired parse_ip split_host r remote xff = false /\
     ~ http_admitted_spec parse_ip r host xff.
 Proof. exact multi_value_xff_refuted. Qed.
 Print Assumptions C12_multi_value_xff_refuted.
 
+Theorem C12_multi_value_xff_now_denied :
+  access_denied_http ex_parse_ip ex_split_host ex_deny_6666 (bs "1.1.1.1:1") [bs "1.1.1.1"; bs "6.6.6.6"] = true.
+Proof. exact multi_value_xff_now_denied. Qed.
+Print Assumptions C12_multi_value_xff_now_denied.
+
+(* the code as it is: a non-denial means every address of the request is admitted, for any
+   number of header lines and with zones; the only hypothesis left is that the request's
+   strings mean, as addresses, what net.ParseIP reads once the zone is cut *)
 Theorem C12_http_gate_spec_on_domain : forall parse_ip split_host addr_of r remote host xff,
-  (forall s, In s (request_strings host xff) -> addr_of s = parse_ip s) ->
-  (List.length xff <= 1)%nat -> parse_ip [] = None ->
+  (forall s, In s (request_strings host xff) -> addr_of s = parse_ip (strip_zone s)) ->
+  parse_ip [] = None ->
   split_host remote = Some host ->
   access_denied_http parse_ip split_host r remote xff = false ->
   http_admitted_spec addr_of r host xff.
 Proof. exact http_gate_spec_on_domain. Qed.
 Print Assumptions C12_http_gate_spec_on_domain.
+
+(* what remains fail-open, and why it is not a finding: a peer host that is not an address even
+   without its zone (net/http never supplies one) is admitted as the nil IP *)
+Theorem C12_unparsable_peer_admitted : forall parse_ip split_host r remote host,
+  split_host remote = Some host -> parse_ip (strip_zone host) = None ->
+  access_denied_http parse_ip split_host r remote [] = false.
+Proof. exact unparsable_peer_admitted. Qed.
+Print Assumptions C12_unparsable_peer_admitted.
 
 (* the boolean reference of the correspondence check decides the intended reading of the
    rule text whenever it was handed the blocks that reading denotes *)
